@@ -37,14 +37,18 @@ package keepclient
 import (
 	"bytes"
 	"crypto/md5"
+	"encoding/json"
 	"errors"
 	"fmt"
 	"io"
 	"io/ioutil"
 	"net/http"
+	"os"
 	"regexp"
+	"runtime/debug"
 	"strings"
 	"testing"
+	"time"
 
 	"git.arvados.org/arvados.git/lib/verifshim/vrep"
 	"git.arvados.org/arvados.git/lib/verifshim/vsched"
@@ -61,35 +65,36 @@ type c03kind struct {
 	terminal  bool // a 200 answer: the client takes it or fails, it does not go on to another server
 	minSize   int  // applicable to blocks of at least this size
 	quickMenu bool // member of the reduced menu (one representative per class)
+	miniMenu  bool // member of the smallest menu (one representative per path through BlockCache.Get)
 }
 
 var c03kinds = []c03kind{
-	{"ok", 200, true, true, 0, true},              // body = block, Content-Length = size
-	{"flip", 200, false, true, 1, true},           // one flipped bit, Content-Length = size
-	{"short-cl", 200, false, true, 1, true},       // Content-Length = size, body ends one byte early (unexpected EOF)
-	{"short-nocl", 200, false, true, 1, true},     // no Content-Length, body ends one byte early with a clean EOF
-	{"short-honest", 200, false, true, 1, true},   // one byte missing, Content-Length = size-1 (disagrees with the hint)
-	{"long-nocl", 200, false, true, 0, true},      // no Content-Length, one extra byte
-	{"long-cl", 200, false, true, 0, true},        // one extra byte, Content-Length = size+1 (disagrees with the hint)
-	{"chunked-ok", 200, true, true, 0, true},      // correct body without Content-Length
-	{"huge-cl", 200, false, true, 0, true},        // Content-Length = 64 MiB + 1, body = block, then the connection ends
-	{"404", 404, false, false, 0, true},           //
-	{"500", 500, false, false, 0, true},           //
-	{"connerr", 0, false, false, 0, true},         //
-	{"other-block", 200, false, true, 1, false},   // a different block of the same size
-	{"flip-first", 200, false, true, 2, false},    // first bit flipped
-	{"empty-200", 200, false, true, 2, false},     // empty body, Content-Length 0
-	{"408", 408, false, false, 0, false},          //
-	{"429", 429, false, false, 0, false},          //
-	{"503", 503, false, false, 0, false},          //
-	{"403", 403, false, false, 0, false},          // neither retried nor counted as "not found"
-	{"trunc-chunked", 200, false, true, 1, false}, // no Content-Length, body ends early with unexpected EOF
+	{"ok", 200, true, true, 0, true, true},              // body = block, Content-Length = size
+	{"flip", 200, false, true, 1, true, true},           // one flipped bit, Content-Length = size
+	{"short-cl", 200, false, true, 1, true, true},       // Content-Length = size, body ends one byte early (unexpected EOF)
+	{"short-nocl", 200, false, true, 1, true, false},     // no Content-Length, body ends one byte early with a clean EOF
+	{"short-honest", 200, false, true, 1, true, false},   // one byte missing, Content-Length = size-1 (disagrees with the hint)
+	{"long-nocl", 200, false, true, 0, true, true},      // no Content-Length, one extra byte
+	{"long-cl", 200, false, true, 0, true, false},        // one extra byte, Content-Length = size+1 (disagrees with the hint)
+	{"chunked-ok", 200, true, true, 0, true, true},      // correct body without Content-Length
+	{"huge-cl", 200, false, true, 0, true, false},        // Content-Length = 64 MiB + 1, body = block, then the connection ends
+	{"404", 404, false, false, 0, true, false},           //
+	{"500", 500, false, false, 0, true, true},           //
+	{"connerr", 0, false, false, 0, true, false},         //
+	{"other-block", 200, false, true, 1, false, false},   // a different block of the same size
+	{"flip-first", 200, false, true, 2, false, false},    // first bit flipped
+	{"empty-200", 200, false, true, 2, false, false},     // empty body, Content-Length 0
+	{"408", 408, false, false, 0, false, false},          //
+	{"429", 429, false, false, 0, false, false},          //
+	{"503", 503, false, false, 0, false, false},          //
+	{"403", 403, false, false, 0, false, false},          // neither retried nor counted as "not found"
+	{"trunc-chunked", 200, false, true, 1, false, false}, // no Content-Length, body ends early with unexpected EOF
 }
 
-func c03menu(size int, full bool) []c03kind {
+func c03menu(size int, full, mini bool) []c03kind {
 	var m []c03kind
 	for _, k := range c03kinds {
-		if size < k.minSize || (!full && !k.quickMenu) {
+		if size < k.minSize || (!full && !k.quickMenu) || (mini && !k.miniMenu) {
 			continue
 		}
 		m = append(m, k)
@@ -191,7 +196,7 @@ func (f *c03fake) Do(req *http.Request) (*http.Response, error) {
 	}
 	blk := f.blocks[bi]
 	size := len(blk.data)
-	menu := c03menu(size, f.cfg.Full)
+	menu := c03menu(size, f.cfg.Full, f.cfg.Mini)
 	var costs []int
 	if f.cfg.Free {
 		costs = make([]int, len(menu))
@@ -294,17 +299,25 @@ type c03cfg struct {
 	Services  int    `json:"services"`
 	Retries   int    `json:"retries"`
 	Hint      bool   `json:"size_hint"`
+	Sig       bool   `json:"sig_hint"` // the locator also carries a +A permission hint
 	Size      int    `json:"block_size"`
 	Size2     int    `json:"block2_size"` // file: size of the second block
 	Mode      string `json:"mode"`        // stream: readall | readfull | copy | bytewise
 	Piece     int    `json:"piece"`       // body delivers at most this many bytes per Read (0 = all)
 	Mix       bool   `json:"mixed_hint"`  // cache: the second reader uses the other locator form
+	Readers   string `json:"readers"`     // cache: "par" = two concurrent readers; "seq" = one reader, then another; "par+1" = two concurrent readers, then a third
 	MaxBlocks int    `json:"max_blocks"`  // file: BlockCache.MaxBlocks
 	Buf       int    `json:"buf"`         // file: Read buffer size
 	Free      bool   `json:"free_fault_cost"`
 	Bound     int    `json:"bound"`
 	Full      bool   `json:"full_menu"`
+	Mini      bool   `json:"mini_menu"`
+
+	small bool // small tree: whole configurations are dealt to the shards (not part of a replay)
+	split int  // big tree: deal subtrees at this deviation depth to the shards (default 2)
 }
+
+func (c c03cfg) nohint() bool { return c.Scen == "cache" && (!c.Hint || c.Mix) }
 
 func (c c03cfg) String() string {
 	s := fmt.Sprintf("%s svc%d retries%d", c.Scen, c.Services, c.Retries)
@@ -312,11 +325,21 @@ func (c c03cfg) String() string {
 	case "stream":
 		s += fmt.Sprintf(" hint=%v size%d %s", c.Hint, c.Size, c.Mode)
 	case "cache":
-		s += fmt.Sprintf(" hint=%v mix=%v size%d", c.Hint, c.Mix, c.Size)
+		s += fmt.Sprintf(" %s hint=%v mix=%v size%d", c.Readers, c.Hint, c.Mix, c.Size)
 	case "file":
 		s += fmt.Sprintf(" sizes%d+%d buf%d maxblocks%d", c.Size, c.Size2, c.Buf, c.MaxBlocks)
 	}
-	return s + fmt.Sprintf(" piece%d free=%v bound%d full=%v", c.Piece, c.Free, c.Bound, c.Full)
+	if c.Sig {
+		s += " sig"
+	}
+	menu := "menu12"
+	if c.Full {
+		menu = "menu20"
+	}
+	if c.Mini {
+		menu = "menu6"
+	}
+	return s + fmt.Sprintf(" piece%d free=%v bound%d %s", c.Piece, c.Free, c.Bound, menu)
 }
 
 type c03read struct {
@@ -373,10 +396,14 @@ func c03newState(cfg c03cfg) (*c03state, *KeepClient) {
 
 func (st *c03state) locator(block int, hint bool) string {
 	b := st.fake.blocks[block]
+	loc := b.hash
 	if hint {
-		return fmt.Sprintf("%s+%d", b.hash, len(b.data))
+		loc += fmt.Sprintf("+%d", len(b.data))
 	}
-	return b.hash
+	if st.fake.cfg.Sig {
+		loc += "+A0123456789abcdef0123456789abcdef01234567@ffffffff"
+	}
+	return loc
 }
 
 func (st *c03state) begin(who string, block, off int) *c03read {
@@ -452,17 +479,13 @@ func c03cacheBody(cfg c03cfg, st *c03state, kc *KeepClient) {
 	if cfg.Mix {
 		loc2 = st.locator(0, !cfg.Hint)
 	}
-	var wg vsched.WaitGroup
-	wg.Add(2)
-	vsched.GoNamed("reader1", func() {
-		defer wg.Done()
+	reader1 := func() {
 		rd := st.begin("r1:ReadAt(0)", 0, 0)
 		p := make([]byte, L+2)
 		n, err := kc.ReadAt(loc1, p, 0)
 		st.finish(rd, p[:n], err)
-	})
-	vsched.GoNamed("reader2", func() {
-		defer wg.Done()
+	}
+	reader2 := func() {
 		rd := st.begin("r2:cache.Get", 0, 0)
 		rd.whole = true
 		buf, err := kc.BlockCache.Get(kc, loc2)
@@ -470,8 +493,28 @@ func c03cacheBody(cfg c03cfg, st *c03state, kc *KeepClient) {
 			buf = nil
 		}
 		st.finish(rd, buf, err)
-	})
-	wg.Wait()
+	}
+	switch cfg.Readers {
+	case "seq":
+		reader2()
+	case "par", "par+1":
+		var wg vsched.WaitGroup
+		wg.Add(2)
+		vsched.GoNamed("reader1", func() {
+			defer wg.Done()
+			reader1()
+		})
+		vsched.GoNamed("reader2", func() {
+			defer wg.Done()
+			reader2()
+		})
+		wg.Wait()
+		if cfg.Readers == "par" {
+			return
+		}
+	default:
+		panic("c03: readers " + cfg.Readers)
+	}
 	off := 1
 	if off > L {
 		off = L
@@ -484,13 +527,17 @@ func c03cacheBody(cfg c03cfg, st *c03state, kc *KeepClient) {
 
 func c03fileBody(cfg c03cfg, st *c03state, kc *KeepClient) {
 	b0, b1 := st.fake.blocks[0], st.fake.blocks[1]
-	// the file starts one byte into the first block and runs to the end of the second
-	skip := 0
+	// the file starts one byte into the first block and ends one byte before the end of the second
+	// (blocks of one byte are used whole)
+	skip, tail := 0, 0
 	if len(b0.data) > 1 {
 		skip = 1
 	}
-	st.file = append(append([]byte(nil), b0.data[skip:]...), b1.data...)
-	mt := fmt.Sprintf(". %s+%d %s+%d %d:%d:f\n", b0.hash, len(b0.data), b1.hash, len(b1.data), skip, len(st.file))
+	if len(b1.data) > 1 {
+		tail = 1
+	}
+	st.file = append(append([]byte(nil), b0.data[skip:]...), b1.data[:len(b1.data)-tail]...)
+	mt := fmt.Sprintf(". %s %s %d:%d:f\n", st.locator(0, true), st.locator(1, true), skip, len(st.file))
 	f, err := kc.CollectionFileReader(map[string]interface{}{"manifest_text": mt}, "f")
 	if err != nil {
 		panic("c03: CollectionFileReader: " + err.Error())
@@ -526,6 +573,9 @@ func c03fileBody(cfg c03cfg, st *c03state, kc *KeepClient) {
 	st.notes = append(st.notes, "read loop stopped without EOF or error")
 }
 
+var c03gcOff bool
+var c03gcPercent int
+
 var c03digits = regexp.MustCompile(`[0-9]+`)
 
 func c03run(r *vrep.Report, cfg c03cfg) vsched.Stats {
@@ -546,7 +596,21 @@ func c03run(r *vrep.Report, cfg c03cfg) vsched.Stats {
 		st.done = true
 	}
 	opts := vsched.Options{Name: cfg.String(), Bound: cfg.Bound, Report: r, Params: cfg, MaxPoints: 3000,
-		DeadlockOK: true, PanicOK: true}
+		DeadlockOK: true, PanicOK: true, NoShard: cfg.small, SplitDepth: cfg.split}
+	if cfg.nohint() {
+		// A locator without size hint makes BlockCache.Get allocate a 64 MiB buffer per fetch.  The
+		// runtime does not touch a buffer that comes straight from the kernel, but it clears (and so
+		// faults in, 0.3 s and more on this machine) every buffer it reuses after a collection.  So
+		// these configurations run first in the process, back to back, with the collector off:
+		// address space grows, resident memory does not.
+		if !c03gcOff {
+			c03gcOff = true
+			c03gcPercent = debug.SetGCPercent(-1)
+		}
+	} else if c03gcOff {
+		c03gcOff = false
+		debug.SetGCPercent(c03gcPercent)
+	}
 	return vsched.Explore(opts, body, func(x *vsched.Result) {
 		r.Eval(1)
 		r.Traces++
@@ -578,6 +642,10 @@ func c03run(r *vrep.Report, cfg c03cfg) vsched.Stats {
 			if k := strings.Index(first, "panicked: "); k >= 0 {
 				first = first[k+len("panicked: "):]
 			}
+			msg := first
+			if strings.Contains(first, "makeslice") { // the wording differs between Go releases
+				first = "makeslice: len exceeds cap"
+			}
 			where := "other"
 			switch {
 			case strings.Contains(x.Panic, "BlockCache).Get"):
@@ -593,8 +661,21 @@ func c03run(r *vrep.Report, cfg c03cfg) vsched.Stats {
 			if cfg.Scen != "file" && (!cfg.Hint || cfg.Mix) {
 				hint = "no-size-hint"
 			}
+			// stable detail: the message and the source positions in the code under test (no goroutine
+			// numbers or addresses; positions refer to the instrumented copy, a few lines off the original)
+			var frames []string
+			for _, ln := range strings.Split(x.Panic, "\n") {
+				ln = strings.TrimSpace(ln)
+				if k := strings.Index(ln, "/sdk/go/"); k >= 0 && strings.Contains(ln, ".go:") && !strings.Contains(ln, "verif_") {
+					ln = ln[k+1:]
+					if j := strings.Index(ln, " +0x"); j > 0 {
+						ln = ln[:j]
+					}
+					frames = append(frames, ln)
+				}
+			}
 			bad(fmt.Sprintf("crash-instead-of-error:%s:%s:%s", where, c03digits.ReplaceAllString(first, "N"), hint),
-				"a goroutine of the client panicked (the process dies; the read does not end with an error): "+x.Panic)
+				fmt.Sprintf("a goroutine of the client panicked (the process dies; the read does not end with an error): %s at %v", msg, frames))
 			r.Outcome("panic")
 			return
 		}
@@ -626,7 +707,8 @@ func c03run(r *vrep.Report, cfg c03cfg) vsched.Stats {
 					bad("file-eof-before-end:"+cfg.Scen, fmt.Sprintf("%s returned io.EOF at offset %d of a %d byte file", rd.who, rd.off+rd.n, len(ref)))
 				}
 				// O2
-				if rd.n > 0 || rd.whole {
+				// (the empty block needs no response: its content follows from the locator alone)
+				if len(blk.data) > 0 && (rd.n > 0 || rd.whole) {
 					if !f.goodConsumedBefore(rd.block, rd.end) {
 						bad("success-backed-by-no-good-response:"+cfg.Scen, fmt.Sprintf("%s succeeded although no correct response for block %d had been read completely", rd.who, rd.block))
 					}
@@ -676,7 +758,23 @@ func minInt(a, b int) int {
 
 func c03configs(thorough bool) []c03cfg {
 	var cfgs []c03cfg
-	// --- stream: exhaustive answer assignment (fault choices free); one client task
+	add := func(c c03cfg) { cfgs = append(cfgs, c) }
+	pick := func(quick, deep int) int {
+		if thorough {
+			return deep
+		}
+		return quick
+	}
+	// --- cache, locator without size hint (64 MiB buffer per fetch: small bounds; these run first, see c03run)
+	add(c03cfg{Scen: "cache", Readers: "seq", Services: 1, Retries: 0, Hint: false, Size: 5, Bound: pick(1, 2), small: !thorough})
+	add(c03cfg{Scen: "cache", Readers: "seq", Services: 1, Retries: 0, Hint: false, Size: 0, Bound: pick(1, 2), small: !thorough})
+	add(c03cfg{Scen: "cache", Readers: "par", Services: 1, Retries: 0, Hint: true, Mix: true, Size: 5, Bound: pick(1, 2)})
+	add(c03cfg{Scen: "cache", Readers: "par", Services: 1, Retries: 0, Hint: false, Mix: true, Size: 1, Bound: 1})
+	if thorough {
+		add(c03cfg{Scen: "cache", Readers: "par", Services: 2, Retries: 1, Hint: false, Size: 5, Bound: 1})
+		add(c03cfg{Scen: "cache", Readers: "par+1", Services: 1, Retries: 0, Hint: false, Size: 5, Bound: 1})
+	}
+	// --- stream: every answer assignment (fault choices free); one client task, no concurrency
 	for _, size := range []int{0, 1, 5} {
 		for _, hint := range []bool{true, false} {
 			for _, mode := range []string{"readall", "readfull", "copy", "bytewise"} {
@@ -687,22 +785,61 @@ func c03configs(thorough bool) []c03cfg {
 					for svc := 1; svc <= 2; svc++ {
 						for retries := 0; retries <= 1; retries++ {
 							full := thorough || (svc == 1 && retries == 0)
-							cfgs = append(cfgs, c03cfg{Scen: "stream", Services: svc, Retries: retries, Hint: hint, Size: size, Mode: mode, Piece: piece, Free: true, Bound: 1, Full: full})
+							add(c03cfg{Scen: "stream", Services: svc, Retries: retries, Hint: hint, Sig: piece == 2, Size: size, Mode: mode, Piece: piece, Free: true, Bound: 0, Full: full, small: true})
 						}
 					}
 				}
 			}
 		}
 	}
-	// stream, 3 services / 2 retries: deviation bound (faults cost 1)
+	// stream, 3 services / 2 retries (up to 9 requests): at most `bound` bad answers
 	for _, hint := range []bool{true, false} {
-		for _, mode := range []string{"readall", "readfull"} {
-			b := 3
-			if thorough {
-				b = 5
-			}
-			cfgs = append(cfgs, c03cfg{Scen: "stream", Services: 3, Retries: 2, Hint: hint, Size: 5, Mode: mode, Piece: 2, Free: false, Bound: b, Full: true})
+		for _, mode := range []string{"readall", "readfull", "copy", "bytewise"} {
+			add(c03cfg{Scen: "stream", Services: 3, Retries: 2, Hint: hint, Size: 5, Mode: mode, Piece: 2, Free: false, Bound: pick(3, 5), Full: true, small: true})
 		}
+	}
+	// --- file: two-block file through the collection file system
+	if !thorough {
+		add(c03cfg{Scen: "file", Services: 1, Retries: 0, Size: 5, Size2: 1, Buf: 3, MaxBlocks: 1, Free: true, Mini: true, Bound: 0, split: 3})
+		add(c03cfg{Scen: "file", Services: 2, Retries: 1, Size: 5, Size2: 5, Buf: 64, MaxBlocks: 0, Sig: true, Bound: 1})
+		add(c03cfg{Scen: "file", Services: 1, Retries: 0, Size: 1, Size2: 5, Buf: 1, MaxBlocks: 1, Piece: 2, Bound: 1})
+	} else {
+		add(c03cfg{Scen: "file", Services: 1, Retries: 0, Size: 5, Size2: 1, Buf: 3, MaxBlocks: 1, Free: true, Mini: true, Bound: 1, split: 3})
+		add(c03cfg{Scen: "file", Services: 1, Retries: 0, Size: 5, Size2: 5, Buf: 64, MaxBlocks: 0, Free: true, Bound: 0, split: 3})
+		add(c03cfg{Scen: "file", Services: 2, Retries: 1, Size: 5, Size2: 5, Buf: 64, MaxBlocks: 0, Sig: true, Bound: 2, split: 3})
+		add(c03cfg{Scen: "file", Services: 1, Retries: 0, Size: 1, Size2: 5, Buf: 1, MaxBlocks: 1, Piece: 2, Bound: 2, split: 3})
+		add(c03cfg{Scen: "file", Services: 1, Retries: 0, Size: 5, Size2: 5, Buf: 2, MaxBlocks: 1, Full: true, Bound: 2, split: 3})
+		add(c03cfg{Scen: "file", Services: 3, Retries: 2, Size: 5, Size2: 1, Buf: 3, MaxBlocks: 1, Full: true, Bound: 2, split: 3})
+	}
+	// --- cache, sequential readers: every answer assignment x schedules of reader / fetch / sweep tasks
+	if !thorough {
+		add(c03cfg{Scen: "cache", Readers: "seq", Services: 1, Retries: 0, Hint: true, Size: 5, Free: true, Bound: 1})
+		add(c03cfg{Scen: "cache", Readers: "seq", Services: 1, Retries: 0, Hint: true, Size: 1, Free: true, Bound: 0})
+		add(c03cfg{Scen: "cache", Readers: "seq", Services: 2, Retries: 1, Hint: true, Sig: true, Size: 5, Free: true, Mini: true, Bound: 0})
+		add(c03cfg{Scen: "cache", Readers: "seq", Services: 2, Retries: 0, Hint: true, Size: 5, Piece: 2, Free: true, Mini: true, Bound: 1})
+	} else {
+		add(c03cfg{Scen: "cache", Readers: "seq", Services: 1, Retries: 0, Hint: true, Size: 5, Free: true, Full: true, Bound: 2, split: 3})
+		add(c03cfg{Scen: "cache", Readers: "seq", Services: 1, Retries: 0, Hint: true, Size: 1, Free: true, Bound: 2, split: 3})
+		add(c03cfg{Scen: "cache", Readers: "seq", Services: 2, Retries: 1, Hint: true, Sig: true, Size: 5, Free: true, Mini: true, Bound: 1, split: 3})
+		add(c03cfg{Scen: "cache", Readers: "seq", Services: 2, Retries: 0, Hint: true, Size: 5, Piece: 2, Free: true, Mini: true, Bound: 2, split: 3})
+		add(c03cfg{Scen: "cache", Readers: "seq", Services: 1, Retries: 1, Hint: true, Size: 5, Free: true, Bound: 1, split: 3})
+	}
+	// --- cache, two concurrent readers (and a third one afterwards): bad answers and preemptions share the
+	// bound, except where the answers are free (every assignment)
+	if !thorough {
+		add(c03cfg{Scen: "cache", Readers: "par", Services: 1, Retries: 0, Hint: true, Size: 5, Piece: 2, Mini: true, Bound: 2, split: 3})
+		add(c03cfg{Scen: "cache", Readers: "par", Services: 2, Retries: 1, Hint: true, Size: 1, Bound: 1})
+		add(c03cfg{Scen: "cache", Readers: "par", Services: 1, Retries: 0, Hint: true, Size: 5, Free: true, Mini: true, Bound: 0, split: 3})
+		add(c03cfg{Scen: "cache", Readers: "par+1", Services: 1, Retries: 0, Hint: true, Size: 5, Mini: true, Bound: 2, split: 3})
+		add(c03cfg{Scen: "cache", Readers: "par+1", Services: 3, Retries: 2, Hint: true, Size: 5, Sig: true, Full: true, Bound: 1})
+	} else {
+		add(c03cfg{Scen: "cache", Readers: "par", Services: 1, Retries: 0, Hint: true, Size: 5, Piece: 2, Bound: 3, split: 3})
+		add(c03cfg{Scen: "cache", Readers: "par", Services: 2, Retries: 1, Hint: true, Size: 1, Mini: true, Bound: 3, split: 3})
+		add(c03cfg{Scen: "cache", Readers: "par", Services: 3, Retries: 2, Hint: true, Size: 5, Full: true, Bound: 2, split: 3})
+		add(c03cfg{Scen: "cache", Readers: "par", Services: 1, Retries: 0, Hint: true, Size: 5, Free: true, Mini: true, Bound: 1, split: 3})
+		add(c03cfg{Scen: "cache", Readers: "par+1", Services: 1, Retries: 0, Hint: true, Size: 5, Bound: 2, split: 3})
+		add(c03cfg{Scen: "cache", Readers: "par+1", Services: 2, Retries: 1, Hint: true, Size: 1, Mini: true, Bound: 2, split: 3})
+		add(c03cfg{Scen: "cache", Readers: "par+1", Services: 3, Retries: 2, Hint: true, Size: 5, Sig: true, Full: true, Bound: 2, split: 3})
 	}
 	return cfgs
 }
@@ -717,12 +854,46 @@ func TestVerifC03(t *testing.T) {
 		c03run(r, rp.Params)
 		return
 	}
+	if dev := os.Getenv("C03_DEV"); dev != "" { // development aid: run one configuration and print its size
+		var cfg c03cfg
+		if err := json.Unmarshal([]byte(dev), &cfg); err != nil {
+			t.Fatal(err)
+		}
+		t0 := time.Now()
+		st := c03run(r, cfg)
+		fmt.Printf("DEV %s: executions=%d points=%d maxcost=%d violations=%d wall=%v\n", cfg, st.Executions, st.Points, st.MaxCost, r.Violations(), time.Since(t0))
+		return
+	}
 	var states int64
+	var idx int64
+	t0 := time.Now()
 	for _, cfg := range c03configs(vrep.Thorough()) {
+		if cfg.small {
+			idx++
+			if !vrep.Mine(idx) {
+				continue
+			}
+		}
+		if r.OutOfBudget() {
+			r.NotExhaustive("time budget spent before configuration " + cfg.String())
+			continue
+		}
+		c0 := time.Now()
 		st := c03run(r, cfg)
 		states += st.Executions
-		r.AddExtra("exec["+cfg.Scen+"]", st.Executions)
+		key := cfg.Scen
+		if cfg.Scen == "cache" {
+			key += "/" + cfg.Readers
+			if cfg.nohint() {
+				key += "/nohint"
+			}
+		}
+		r.AddExtra("exec["+key+"]", st.Executions)
 		r.AddExtra("configs", 1)
+		if os.Getenv("C03_VERBOSE") != "" {
+			fmt.Printf("%8.1fs %7.1fs %9d  %s\n", time.Since(t0).Seconds(), time.Since(c0).Seconds(), st.Executions, cfg)
+		}
 	}
 	r.States = states
+	r.Extra("bounds", "stream: every answer assignment for <=2 services x <=2 rounds, <=3 (thorough 5) bad answers for 3 services x 3 rounds; cache/seq: every answer assignment x preemption bound; cache/par, par+1, file: bad answers + preemptions <= bound (2, thorough 3) unless free_fault_cost")
 }
